@@ -7,14 +7,17 @@
 package main
 
 import (
+	"bytes"
 	"fmt"
 	"os"
 	"sort"
+	"strconv"
 	"strings"
 	"time"
 	"unicode"
 
 	vaxis "git.sr.ht/~rockorager/vaxis"
+	"git.sr.ht/~rockorager/vaxis/ansi"
 	"git.sr.ht/~rockorager/vaxis/widgets/term"
 	"github.com/rivo/uniseg"
 	"verif/harness/hx"
@@ -249,6 +252,7 @@ type harness struct {
 	keys *hx.Stream
 	mice *hx.Stream
 	pads *hx.Stream
+	kids *hx.Stream
 }
 
 func (h *harness) pick(n int) int { return h.cfg.Rand.Intn(n) }
@@ -466,6 +470,467 @@ func (h *harness) genKeypad() {
 			k.Text = string(c)
 		}
 		h.addKeypad(k, h.pick(2) == 0, "other")
+	}
+}
+
+// ---------- the child's output: bytes through the real parser and the emulator's own update path ----------
+
+// creq is one control function of the child's output that concerns the
+// input-related modes, as the generator meant it: 'h' DECSET / 'l' DECRST with
+// the modes it names, '=' DECKPAM, '>' DECKPNM, 'c' RIS.
+type creq struct {
+	kind byte
+	ns   []int
+}
+
+func (r creq) bytes(rnd func(int) int) string {
+	switch r.kind {
+	case 'h', 'l':
+		ps := make([]string, len(r.ns))
+		for i, n := range r.ns {
+			ps[i] = strconv.Itoa(n)
+			if n == 0 && rnd(2) == 0 {
+				ps[i] = "" // an omitted parameter is 0
+			}
+		}
+		return "\x1b[?" + strings.Join(ps, ";") + string(r.kind)
+	default:
+		return "\x1b" + string(r.kind)
+	}
+}
+
+func reqsTerm(rs []creq) string {
+	items := make([]string, len(rs))
+	for i, r := range rs {
+		switch r.kind {
+		case 'h':
+			items[i] = "QSet " + hx.IntList(r.ns)
+		case 'l':
+			items[i] = "QReset " + hx.IntList(r.ns)
+		case '=':
+			items[i] = "QKpam"
+		case '>':
+			items[i] = "QKpnm"
+		default:
+			items[i] = "QRis"
+		}
+	}
+	return hx.List(items)
+}
+
+func reqsJSON(rs []creq) []string {
+	out := make([]string, len(rs))
+	for i, r := range rs {
+		switch r.kind {
+		case 'h', 'l':
+			ps := make([]string, len(r.ns))
+			for j, n := range r.ns {
+				ps[j] = strconv.Itoa(n)
+			}
+			out[i] = "CSI ? " + strings.Join(ps, " ; ") + " " + string(r.kind)
+		default:
+			out[i] = "ESC " + string(r.kind)
+		}
+	}
+	return out
+}
+
+// the modes DECRQM is asked about after the child's output (model: reported_modes)
+var reportedModes = []int{1, 1000, 1002, 1003, 1006, 1007, 1049, 2004}
+
+func parseChild(b []byte) []ansi.Sequence {
+	p := ansi.NewParser(bytes.NewReader(b))
+	var out []ansi.Sequence
+	for s := range p.Next() {
+		if _, ok := s.(ansi.EOF); ok {
+			continue
+		}
+		out = append(out, s)
+	}
+	return out
+}
+
+// runChild: a fresh emulator (80x24, no child process) receives the child's
+// output — parsed by the real ansi.Parser, every sequence handed to the
+// unmodified Model.update — then the DECRQM queries, then the event through
+// Model.Update.  Returns the DECRQM replies and the bytes written for the event.
+func (h *harness) runChild(out []byte, ev vaxis.Event, js interface{}) (report, written []byte) {
+	t, oc, msg := term.VerifNewTerm(80, 24)
+	if oc != term.VerifOK {
+		panic("VerifNewTerm: " + msg)
+	}
+	defer t.Close()
+	feed := func(b []byte) {
+		for _, seq := range parseChild(b) {
+			if oc, msg := t.Feed(seq); oc != term.VerifOK {
+				h.host.direct = append(h.host.direct, hx.DirectViolation{Class: "child-output-outcome", Case: js,
+					What: fmt.Sprintf("Model.update ended with outcome %d (%s) on %q", oc, msg, b)})
+			}
+		}
+	}
+	feed(out)
+	t.Replies() // answers to the child's own queries are not part of the observation
+	var q []byte
+	for _, n := range reportedModes {
+		q = append(q, fmt.Sprintf("\x1b[?%d$p", n)...)
+	}
+	feed(q)
+	report = t.Replies()
+	panicked, pmsg := hx.Catch(func() { t.Model().Update(ev) })
+	if panicked {
+		h.host.direct = append(h.host.direct, hx.DirectViolation{Class: "update-panic", Case: js, What: pmsg})
+	}
+	written = t.Replies()
+	return report, written
+}
+
+func (h *harness) addChild(pieces []piece, ev vaxis.Event, tags ...string) {
+	var out []byte
+	var reqs []creq
+	multi, nonfinal1049 := false, false
+	for _, p := range pieces {
+		out = append(out, p.bytes...)
+		if p.req != nil {
+			reqs = append(reqs, *p.req)
+			if len(p.req.ns) > 1 {
+				multi = true
+				for i, n := range p.req.ns[:len(p.req.ns)-1] {
+					_ = i
+					if n == 1049 || n == 47 || n == 1047 {
+						nonfinal1049 = true
+					}
+				}
+			}
+		}
+	}
+	var evTerm string
+	var evJS interface{}
+	switch e := ev.(type) {
+	case vaxis.Key:
+		evTerm = "(TKey " + keyTerm(e) + ")"
+		evJS = map[string]interface{}{"key": keyJSON(e)}
+	case vaxis.Mouse:
+		evTerm = "(TMouse " + mouseTerm(e) + ")"
+		evJS = map[string]interface{}{"mouse": mouseJSON(e)}
+	case vaxis.PasteStartEvent:
+		evTerm = "TPasteStart"
+		evJS = "PasteStartEvent"
+	case vaxis.PasteEndEvent:
+		evTerm = "TPasteEnd"
+		evJS = "PasteEndEvent"
+	default:
+		evTerm = "TOther"
+		evJS = fmt.Sprintf("%T", ev)
+	}
+	js := map[string]interface{}{"child_output": fmt.Sprintf("%q", out), "requests": reqsJSON(reqs), "event": evJS}
+	report, written := h.runChild(out, ev, js)
+	// re-read through the host, except a legacy (X10) mouse report (see addEvent)
+	_, isKey := ev.(vaxis.Key)
+	reread := (isKey || len(written) > 0) && !strings.HasPrefix(string(written), "\x1b[M")
+	pause := len(written) > 0 && written[len(written)-1] == 0x1b
+	evsTerm := hx.None
+	var evsJS interface{}
+	if reread {
+		evs, ok := h.host.read(written, pause)
+		if !ok {
+			h.host.direct = append(h.host.direct, hx.DirectViolation{Class: "host-hang", Case: js,
+				What: fmt.Sprintf("the host Vaxis did not deliver the sentinel after %q", written)})
+		}
+		if strings.Contains(string(written), "\x1b[200~") {
+			h.host.read([]byte("\x1b[201~"), false)
+		}
+		evsTerm = hx.Some(eventsTerm(evs))
+		evsJS = eventsJSON(evs)
+	}
+	js["decrqm_replies"] = fmt.Sprintf("%q", report)
+	js["written"] = fmt.Sprintf("%q", written)
+	js["events"] = evsJS
+	termS := hx.Tuple(reqsTerm(reqs), hx.Bytes(out), evTerm, hx.Bool(pause), hx.Bytes(report), hx.Bytes(written), evsTerm)
+	if multi {
+		tags = append(tags, "multi-parameter")
+	}
+	if nonfinal1049 {
+		tags = append(tags, "screen-mode-not-last")
+	}
+	if len(written) > 0 {
+		tags = append(tags, "written")
+	} else {
+		tags = append(tags, "nothing-written")
+	}
+	h.kids.Add(termS, js, multi, tags...)
+}
+
+type piece struct {
+	bytes string
+	req   *creq
+}
+
+var (
+	inputModes  = []int{1, 1000, 1002, 1003, 1006, 1007, 2004}
+	screenModes = []int{1049, 47, 1047}
+	otherModes  = []int{0, 2, 3, 5, 6, 7, 8, 12, 25, 66, 1004, 1005, 1015, 1016, 1048, 2026, 2027, 9999, 65535, 2147483647}
+)
+
+func (h *harness) req(kind byte, ns ...int) piece {
+	r := creq{kind: kind, ns: append([]int(nil), ns...)}
+	return piece{bytes: r.bytes(h.pick), req: &r}
+}
+
+// a control function or text that must leave the input-related modes alone
+func (h *harness) distractor() piece {
+	n := append(append(append([]int(nil), inputModes...), screenModes...), 4, 20)[h.pick(len(inputModes)+len(screenModes)+2)]
+	m := inputModes[h.pick(len(inputModes))]
+	return piece{bytes: []string{
+		"hello", "$ ls\r\n", "\t", "\x1b[1;31m", "\x1b[0m", "\x1b[5;7H", "\x1b[2J", "\x1b[K", "\x1b7", "\x1b8", "\x1b(0", "\x1b(B", "é",
+		fmt.Sprintf("\x1b[%dh", n),        // SM: the ANSI mode of that number, not the DEC private one
+		fmt.Sprintf("\x1b[%d;%dl", n, m),  // RM
+		fmt.Sprintf("\x1b[?%d$p", m),      // DECRQM: a reply, no change
+		fmt.Sprintf("\x1b[>%d;%dh", n, m), // another private marker
+		fmt.Sprintf("\x1b[?%d;%d$h", n, m),
+		fmt.Sprintf("\x1b[?%d;%dm", n, m),
+		fmt.Sprintf("\x1b[%d;%dr", 1+h.pick(10), 12+h.pick(12)),
+	}[h.pick(20)]}
+}
+
+func (h *harness) perm(ns []int) []int {
+	out := make([]int, len(ns))
+	for i, j := range h.cfg.Rand.Perm(len(ns)) {
+		out[i] = ns[j]
+	}
+	return out
+}
+
+func (h *harness) subset(ns []int, p int) []int {
+	var out []int
+	for _, n := range ns {
+		if h.pick(100) < p {
+			out = append(out, n)
+		}
+	}
+	return out
+}
+
+// an event whose forwarding depends on mode n
+func (h *harness) eventFor(n int) vaxis.Event {
+	col, row := h.pick(200), h.pick(60)
+	switch n {
+	case 1:
+		return vaxis.Key{Keycode: []rune{vaxis.KeyUp, vaxis.KeyDown, vaxis.KeyRight, vaxis.KeyLeft, vaxis.KeyEnd, vaxis.KeyHome}[h.pick(6)]}
+	case 1000:
+		return vaxis.Mouse{Button: buttons[h.pick(3)], Col: col, Row: row, EventType: []vaxis.EventType{vaxis.EventPress, vaxis.EventRelease}[h.pick(2)]}
+	case 1002:
+		return vaxis.Mouse{Button: buttons[h.pick(3)], Col: col, Row: row, EventType: vaxis.EventMotion}
+	case 1003:
+		return vaxis.Mouse{Button: vaxis.MouseNoButton, Col: col, Row: row, EventType: vaxis.EventMotion}
+	case 1006:
+		return vaxis.Mouse{Button: buttons[h.pick(len(buttons))], Col: col, Row: row, EventType: vaxis.EventPress}
+	case 1007, 1049, 47, 1047:
+		return vaxis.Mouse{Button: []vaxis.MouseButton{vaxis.MouseWheelUp, vaxis.MouseWheelDown}[h.pick(2)], Col: col, Row: row, EventType: vaxis.EventPress}
+	case 2004:
+		if h.pick(2) == 0 {
+			return vaxis.PasteStartEvent{}
+		}
+		return vaxis.PasteEndEvent{}
+	}
+	return h.anyEvent()
+}
+
+func (h *harness) anyEvent() vaxis.Event {
+	switch h.pick(12) {
+	case 0, 1:
+		return h.eventFor(2004)
+	case 2, 3:
+		return h.eventFor(1)
+	case 4:
+		// keys the cursor-key mode must not touch
+		c := []rune{'a', 'Z', '5', vaxis.KeyEnter, vaxis.KeyTab, vaxis.KeyF05, vaxis.KeyInsert, vaxis.KeyPgDown, vaxis.KeyKeyPad5}[h.pick(9)]
+		k := vaxis.Key{Keycode: c}
+		if c >= 0x20 && c < 0x7f {
+			k.Text = string(c)
+		}
+		return k
+	case 5:
+		return vaxis.Key{Keycode: specialKeys[h.pick(len(specialKeys))], Modifiers: vaxis.ModifierMask(h.pick(8))}
+	default:
+		return h.eventFor([]int{1000, 1002, 1003, 1006, 1007}[h.pick(5)])
+	}
+}
+
+func (h *harness) genChild() {
+	thorough := h.cfg.Thorough()
+	enterAlt := func() piece { return h.req('h', 1049) }
+	// A. one mode and one companion in the same control function, both orders, on the primary and on the
+	//    alternate screen: set together / reset together / set and reset together
+	companions := []int{1049, 47, 1047, 1007, 1000, 1006, 2004, 1, 25, 0}
+	reps := 1
+	if thorough {
+		reps = 6
+	}
+	for rep := 0; rep < reps; rep++ {
+		for _, t := range inputModes {
+			for _, alt := range []bool{false, true} {
+				for _, c := range companions {
+					if c == t {
+						continue
+					}
+					for order := 0; order < 2; order++ {
+						pair := []int{c, t}
+						if order == 1 {
+							pair = []int{t, c}
+						}
+						for phase := 0; phase < 3; phase++ {
+							var ps []piece
+							if alt {
+								ps = append(ps, enterAlt())
+							}
+							if h.pick(3) == 0 {
+								ps = append(ps, h.distractor())
+							}
+							// what makes the mode observable
+							switch t {
+							case 1006:
+								ps = append(ps, h.req('h', 1000))
+							case 1000, 1002, 1003:
+								if h.pick(2) == 0 {
+									ps = append(ps, h.req('h', 1006))
+								}
+							}
+							switch phase {
+							case 0: // set together
+								ps = append(ps, h.req('h', pair...))
+							case 1: // set alone, reset together
+								ps = append(ps, h.req('h', t), h.req('l', pair...))
+							case 2: // set together, reset together (a clean-up string)
+								ps = append(ps, h.req('h', pair...))
+								if h.pick(3) == 0 {
+									ps = append(ps, h.distractor())
+								}
+								ps = append(ps, h.req('l', pair...))
+							}
+							scr := "primary"
+							if alt {
+								scr = "alternate"
+							}
+							h.addChild(ps, h.eventFor(t), "pair", "screen-"+scr)
+						}
+					}
+				}
+			}
+		}
+	}
+	// B. a program's start-up and clean-up strings: several modes in one DECSET, any order; a DECRST naming
+	//    any subset in any order (screen modes anywhere in the list), possibly sent twice
+	all := append(append([]int(nil), inputModes...), screenModes...)
+	n := 450
+	if thorough {
+		n = 6000
+	}
+	for i := 0; i < n; i++ {
+		var ps []piece
+		alt := false
+		if h.pick(3) == 0 {
+			ps = append(ps, enterAlt())
+			alt = true
+		}
+		on := h.subset(all, 55)
+		if h.pick(4) == 0 {
+			on = append(on, otherModes[h.pick(len(otherModes))])
+		}
+		on = h.perm(on)
+		switch {
+		case len(on) == 0:
+		case h.pick(3) == 0 && len(on) > 1:
+			k := 1 + h.pick(len(on)-1)
+			ps = append(ps, h.req('h', on[:k]...), h.req('h', on[k:]...))
+		default:
+			ps = append(ps, h.req('h', on...))
+		}
+		if h.pick(4) == 0 {
+			ps = append(ps, h.req([]byte{'=', '>'}[h.pick(2)]))
+		}
+		for k := h.pick(3); k > 0; k-- {
+			ps = append(ps, h.distractor())
+		}
+		var off []int
+		switch h.pick(4) {
+		case 0: // exactly what was switched on, in another order
+			off = h.perm(on)
+		case 1: // everything
+			off = h.perm(all)
+		default:
+			off = h.perm(h.subset(all, 50))
+		}
+		if h.pick(5) == 0 {
+			off = append(off, otherModes[h.pick(len(otherModes))])
+			off = h.perm(off)
+		}
+		if len(off) > 0 && h.pick(6) != 0 {
+			ps = append(ps, h.req('l', off...))
+			if h.pick(4) == 0 {
+				ps = append(ps, h.req('l', off...))
+			}
+		}
+		var ev vaxis.Event
+		if len(off) > 0 && h.pick(3) != 0 {
+			ev = h.eventFor(off[h.pick(len(off))])
+		} else {
+			ev = h.anyEvent()
+		}
+		scr := "primary"
+		if alt {
+			scr = "alternate"
+		}
+		h.addChild(ps, ev, "startup-cleanup", "screen-"+scr)
+	}
+	// C. random output: mode-setting control functions with 1-6 parameters from all pools (duplicates
+	//    allowed), keypad switches, an occasional full reset, text and other control functions in between
+	pool := append(append(append([]int(nil), all...), all...), otherModes...)
+	n = 450
+	if thorough {
+		n = 6000
+	}
+	for i := 0; i < n; i++ {
+		var ps []piece
+		for k := 2 + h.pick(8); k > 0; k-- {
+			switch x := h.pick(20); {
+			case x < 12:
+				ns := make([]int, 1+h.pick(6))
+				for j := range ns {
+					ns[j] = pool[h.pick(len(pool))]
+				}
+				ps = append(ps, h.req([]byte{'h', 'l'}[h.pick(2)], ns...))
+			case x < 14:
+				ps = append(ps, h.req([]byte{'=', '>'}[h.pick(2)]))
+			case x == 14 && h.pick(3) == 0:
+				ps = append(ps, h.req('c'))
+			default:
+				ps = append(ps, h.distractor())
+			}
+		}
+		h.addChild(ps, h.anyEvent(), "random")
+	}
+	// D. corpus: the shapes real programs send
+	for _, c := range []struct {
+		out string
+		ev  vaxis.Event
+	}{
+		{"\x1b[?2004h\x1b[?1049;2004l", vaxis.PasteStartEvent{}},
+		{"\x1b[?1h\x1b[?1000;1006h\x1b[?1049;1;1000;1006l", vaxis.Key{Keycode: vaxis.KeyUp}},
+		{"\x1b[?1h\x1b[?1000;1006h\x1b[?1049;1;1000;1006l", vaxis.Mouse{Button: vaxis.MouseLeftButton, Col: 3, Row: 4, EventType: vaxis.EventPress}},
+		{"\x1b[?1049h\x1b[?1;2004h\x1b[?1000;1002;1003;1006h\x1b[?1006;1003;1002;1000l\x1b[?2004;1;1049l", vaxis.PasteEndEvent{}},
+		{"\x1b[?1049h\x1b[?1049;1007l\x1b[?1049;1007h", vaxis.Mouse{Button: vaxis.MouseWheelUp, EventType: vaxis.EventPress}},
+		{"\x1b[?47;1000h\x1b[?1047;1000l", vaxis.Mouse{Button: vaxis.MouseLeftButton, EventType: vaxis.EventPress}},
+	} {
+		var ps []piece
+		for _, seq := range parseChild([]byte(c.out)) {
+			cs := seq.(ansi.CSI)
+			var ns []int
+			for _, p := range cs.Parameters {
+				ns = append(ns, p[0])
+			}
+			ps = append(ps, h.req(byte(cs.Final), ns...))
+		}
+		h.addChild(ps, c.ev, "corpus")
 	}
 }
 
@@ -751,11 +1216,14 @@ func main() {
 	h.pads = hx.NewStream("keypad", "gen.GenKeys model.Keys model.TermMouse model.TermKeys", "keypad_case", "c13_keypad_mismatches", "c13_keypad_violations")
 	h.pads.Known = "c13_keypad_known"
 	h.pads.KnownClass = "keypad-mode-ignored"
+	h.kids = hx.NewStream("child", "gen.GenKeys model.Keys model.Parser model.TermMouse model.TermKeys", "child_case", "c13_child_mismatches", "c13_child_violations")
 	h.keys.ShardMax = 250
 	h.mice.ShardMax = 250
+	h.kids.ShardMax = 250
 	h.genKeypad()
 	h.genKeys()
 	h.genMouse()
+	h.genChild()
 	ok := hx.WithTimeout(5*time.Second, h.host.vx.Close)
 	extra := map[string]interface{}{"host_reads": h.host.reads, "host_reads_after_pause": h.host.pauses, "host_closed": ok}
 	cfg.Write("C13", "key stream: every key of xtermKeymap x 8 modifier sets x DECCKM x DECKPAM exhaustively, every named key, printable ASCII x 8 modifier sets exhaustively, "+
@@ -763,7 +1231,13 @@ func main() {
 		"(modes set through the emulator's DECSET/DECRST/ESC = dispatch) and the bytes are read back by a real Vaxis on a fake console. "+
 		"keypad stream: every keypad key (with its kitty text, with Num Lock, with Shift) and some other keys, written under DECKPNM and under DECKPAM; the unmodified keypad keys are the guard of the recorded finding keypad-mode-ignored. "+
 		"mouse stream: 64 mode combinations x 10 buttons x press/release/motion, random buttons/types/positions, paste boundaries with and without 2004; "+
-		"read back by the real Vaxis unless the bytes are a legacy X10 report. non-trivial = key: Shift/Alt/Ctrl held, a special key or a non-default mode; "+
-		"mouse: something was written; distinct by the whole case",
-		[]*hx.Stream{h.pads, h.keys, h.mice}, extra, h.host.direct)
+		"read back by the real Vaxis unless the bytes are a legacy X10 report. "+
+		"child stream: the modes come from the child's OUTPUT as bytes (real ansi.Parser, every sequence through the unmodified Model.update): DECSET/DECRST with 1-10 parameters in any order "+
+		"(1, 1000, 1002, 1003, 1006, 1007, 2004 mixed with 1049/47/1047 and unrelated modes, omitted parameters, duplicates), on the primary and on the alternate screen, "+
+		"every input mode paired with every companion in both orders (set together / reset together / both), start-up and clean-up strings (any subset, any order, sent twice), "+
+		"random output with keypad switches, RIS, text, SM/RM/DECRQM and other control functions in between; then DECRQM for the eight input modes and one key / paste boundary / mouse event "+
+		"through Model.Update; the property is decided from the requests the generator put into the output (the child's last word on each mode), not from the emulator's mode state. "+
+		"non-trivial = key: Shift/Alt/Ctrl held, a special key or a non-default mode; "+
+		"mouse: something was written; child: a DECSET/DECRST with at least two parameters; distinct by the whole case",
+		[]*hx.Stream{h.pads, h.keys, h.mice, h.kids}, extra, h.host.direct)
 }
